@@ -38,29 +38,46 @@ YawOff == { <<1,0,0,0>>, <<50,0,0,1>>, <<5,0,0,-1>>, <<1,0,0,1>> }
 RtVec(q, u) == M3Vec(M3T(QMat(q)), u)
 Bn(decl, incl) == << decl[1] * incl[1], decl[2] * incl[1], incl[2] * decl[3] >>       \* over decl[3]*incl[3]
 
+(* exactly level attitudes heading 120..180 deg away from north, both senses: trace(R) <= 0 with R00 = R11 in exact
+   arithmetic, so rounding decides the last selectors of the matrix -> quaternion extraction that initialise runs through *)
+LevelYaw == { <<1,0,0,2>>, <<1,0,0,-2>>, <<1,0,0,3>>, <<2,0,0,-5>>, <<1,0,0,5>>, <<3,0,0,-7>>, <<1,0,0,10>>, <<2,0,0,7>>,
+              <<4,0,0,-7>>, <<1,0,0,-4>>, <<5,0,0,9>>, <<1,0,0,-30>> }
+BaseAtt  == IF Thorough THEN QAtt ELSE QAttQ
 VARIABLES dummy2
 InitC == /\ dummy = 0 /\ dummy2 = 0
-         /\ \E q \in (IF Thorough THEN QAtt ELSE QAttQ) : tv = [op |-> "seedq", q |-> q]
+         /\ \E q \in BaseAtt \cup LevelYaw : tv = [op |-> "seedq", q |-> q]
 NextC == UNCHANGED <<dummy, dummy2>> /\ tv.op = "seedq" /\ LET q == tv.q IN
    \/ \E decl \in Angles, incl \in Incls, gs \in {"ok", "half", "double"} :
         tv' = [op |-> "init", q |-> q, decl |-> decl, incl |-> incl, gscale |-> gs,
                gdir |-> RtVec(q, <<0, 0, -1>>), bb |-> RtVec(q, Bn(decl, incl)), bn |-> Bn(decl, incl), N |-> QNorm(q)]
    (* degenerate measurements: the attitude is not determined (field parallel / anti-parallel to
       gravity, zero field, zero gravity) -> the only admissible outcome is a non-zero error code *)
-   \/ \E decl \in {<<1,0,1>>, <<4,3,5>>}, deg \in {"field_up", "field_down", "zero_field", "zero_gravity"} :
+   \/ q \in BaseAtt /\ \E decl \in {<<1,0,1>>, <<4,3,5>>}, deg \in {"field_up", "field_down", "zero_field", "zero_gravity"} :
         tv' = [op |-> "init_degenerate", q |-> q, decl |-> decl, deg |-> deg,
                gdir |-> RtVec(q, <<0, 0, -1>>), N |-> QNorm(q)]
-   \/ \E b \in Biases, h \in HSteps, dt \in Dts, W \in {"W0", "small"} :
+   \/ q \in BaseAtt /\ \E b \in Biases, h \in HSteps, dt \in Dts, W \in {"W0", "small"} :
         tv' = [op |-> "predict", q |-> q, b |-> b, h |-> h, dt |-> dt, W |-> W, post |-> QRed(QMul(q, h)),
                cell |-> IF QMul(q, h)[1] < 0 THEN "shadow" ELSE "noshadow"]
-   \/ \E W \in Ws, mag \in AccMag, tilt \in Tilts, b \in {<<0,0,0>>, <<7,-7,3>>} :
+   \/ q \in BaseAtt /\ \E W \in Ws, mag \in AccMag, tilt \in Tilts, b \in {<<0,0,0>>, <<7,-7,3>>} :
         tv' = [op |-> "accel", q |-> q, b |-> b, W |-> W, mag |-> mag, tilt |-> tilt,
                ydir |-> RtVec(QRed(QMul(q, tilt)), <<0, 0, -1>>), yN |-> QNorm(QRed(QMul(q, tilt))),
                cls |-> IF mag \in {490, 1960, 4900} THEN "must_reject" ELSE "any",
                gate |-> IF Abs(mag - 980) > 100 THEN "reject" ELSE IF Abs(mag - 980) = 100 THEN "edge" ELSE "accept"]
-   \/ \E W \in Ws, yaw \in YawOff, decl \in {<<1,0,1>>, <<4,3,5>>}, b \in {<<0,0,0>>, <<7,-7,3>>} :
+   \/ q \in BaseAtt /\ \E W \in Ws, yaw \in YawOff, decl \in {<<1,0,1>>, <<4,3,5>>}, b \in {<<0,0,0>>, <<7,-7,3>>} :
         tv' = [op |-> "mag", q |-> q, b |-> b, W |-> W, yaw |-> yaw, decl |-> decl,
                ydir |-> RtVec(QRed(QMul(yaw, q)), Bn(decl, <<1,0,1>>)), yN |-> QNorm(QRed(QMul(yaw, q))) * decl[3]]
+   (* magnetometer vectors that are NOT a consistent horizontal field: sensor drop-out (zero vector), a field with
+      no horizontal component in the navigation frame (along +-vertical), grossly wrong magnitude, a steep
+      inclination.  Same contract: non-zero code => unchanged, code 0 => finite and P+ <= P.            *)
+   \/ q \in BaseAtt /\ \E W \in {"W0", "coupled", "tight"}, kind \in {"zero", "up", "down", "big", "tiny", "steep"}, b \in {<<0,0,0>>, <<7,-7,3>>} :
+        tv' = [op |-> "magx", q |-> q, b |-> b, W |-> W, kind |-> kind, decl |-> <<1,0,1>>,
+               ydir |-> CASE kind = "zero"  -> <<0, 0, 0>>
+                          [] kind = "up"    -> RtVec(q, <<0, 0, -1>>)
+                          [] kind = "down"  -> RtVec(q, <<0, 0, 1>>)
+                          [] kind = "steep" -> RtVec(q, Bn(<<1,0,1>>, <<7,24,25>>))        \* inclination 73.7 deg
+                          [] OTHER          -> RtVec(q, Bn(<<1,0,1>>, <<1,0,1>>)),
+               yN |-> QNorm(q) * (IF kind = "steep" THEN 25 ELSE 1),
+               sc |-> CASE kind = "big" -> 1000 [] kind = "tiny" -> 1 [] OTHER -> 100]          \* percent of the nominal 0.1
 SpecC == InitC /\ [][NextC]_<<tv, dummy, dummy2>>
 
 (* what TLC proves *)
@@ -69,5 +86,7 @@ MeasLaw == tv.op = "init" =>
     /\ M3Vec(QMat(tv.q), tv.bb) = VScale(tv.N * tv.N, tv.bn)                    \* R B_b = B_n
     /\ NormSq(tv.bn) = (tv.decl[3] * tv.incl[3]) * (tv.decl[3] * tv.incl[3])    \* |B_n| = 1
 PredLaw == tv.op = "predict" => QNorm(QMul(tv.q, tv.h)) = QNorm(tv.q) * QNorm(tv.h) /\ QNorm(tv.post) > 0
+MagxLaw == tv.op = "magx" /\ tv.kind \in {"up", "down"} =>            \* R y_b is vertical: no horizontal component in the nav frame
+             LET v == M3Vec(QMat(tv.q), tv.ydir) IN v[1] = 0 /\ v[2] = 0 /\ v[3] # 0
 AccLaw  == tv.op = "accel" /\ tv.yN < 40000 => NormSq(tv.ydir) = tv.yN * tv.yN                    \* |ydir| = 1 (over yN)
 =============================================================================
